@@ -170,6 +170,48 @@ def check(facts, rep, tier, cfg):
                             else:
                                 rep.bad("C01.R1", "request-args/%s" % pat, where, "stream requested for host<-%s port<-%s, expected %s/%s" % (sorted(h), sorted(p), sorted(wh), sorted(wp)))
         rep.floor("C01.R1", "stream request sites", m, n_client)
+        # the port (and host) a stream is requested for are passed on as they are at every hop: entry point -> request_tcp_channel /
+        # handle_connect -> StreamCommand (no arithmetic, mask or narrowing on the way)
+        from an import inexact_steps as _ix1, _PRESERVING_CALLS as _PC1
+        _AW = ("poll", "into_future", "new_unchecked", "get_context", "map_err", "port_u16", "port", "host", "authority", "uri", "as_u16")
+
+        def _src1(y):
+            return y.kind == "param" or (y.kind == "call" and y[6] not in _PC1 and y[6] not in _AW)
+        kx = 0
+        for b in crate.bodies:
+            if "/src/client/" not in b.file or "::tests::" in b.path:
+                continue
+            tr = None
+            for bi, t in b.calls():
+                c = callee(t)
+                if c and c["name"] in ("request_tcp_channel", "handle_connect") and len(t["args"]) >= 3:
+                    tr = tr or Tracer(facts, b)
+                    pi = 2
+                    kx += 1
+                    st1 = [z for z in _ix1(tr.operand(t["args"][pi]), _src1, 16, extra_calls=_AW) if not re.match(r"^\d+$", z.strip())]
+                    w1 = "%s (%s)" % (loc_str(t["loc"]), b.path)
+                    if st1:
+                        rep.bad("C01.R1", "request-port-exact/%s" % b.path.split("::{")[0], w1,
+                                "the port handed to %s is computed (`%s`), not the port the entry point was given: the stream is opened to "
+                                "another port for some values" % (c["name"], st1[0]))
+                    else:
+                        rep.ok("C01.R1", "request-port-exact/%s#%d" % (b.path.split("::{")[0], kx), w1, "port passed on as it is", nontrivial=False)
+            for blk in b.blocks:
+                if blk["cleanup"]:
+                    continue
+                for st in blk["stmts"]:
+                    if st["k"] == "Assign" and st["rv"]["k"] == "Aggregate" and str(st["rv"]["agg"].get("adt", "")).endswith("StreamCommand"):
+                        tr = tr or Tracer(facts, b)
+                        fmap = dict(zip(st["rv"]["agg"]["fields"], st["rv"]["ops"]))
+                        if "port" in fmap:
+                            kx += 1
+                            st1 = [z for z in _ix1(tr.operand(fmap["port"]), _src1, 16, extra_calls=_AW) if not re.match(r"^\d+$", z.strip())]
+                            w1 = "%s (%s)" % (loc_str(st["loc"]), b.path)
+                            if st1:
+                                rep.bad("C01.R1", "request-port-exact/StreamCommand", w1, "StreamCommand.port is computed (`%s`), not the requested port" % st1[0])
+                            else:
+                                rep.ok("C01.R1", "request-port-exact/StreamCommand", w1, "port passed on as it is", nontrivial=False)
+        rep.floor("C01.R1", "hops of the requested port", kx, 4)
         # socks: handle_connect(rhost, rport) <- read_request results in their roles
         for b in crate.bodies:
             tr = None
